@@ -243,8 +243,10 @@ def plan(tier, seed):
         else:
             pre += {"star4": ["order % 3 == 0"], "lonepair": ["order % 3 == 0"], "dbond": ["order % 6 == 0"],
                     "star5": ["order % 24 == 0", "chg in (0, 2)"], "star6": ["order % 180 == 0", "chg in (0, 2)", "lig in (0, 1, 3)"]}.get(n, [])
+        if n == "star6" and c == "SCRG":
+            continue      # one octahedral SCRG instance against all orderings x parities costs minutes of CPU (the vacuity twin alone ran past its budget); SMG keeps the class
         units.append(Sel(name=f"{n}_{c}", func="vp.props.C02:template", params=params, pre=pre, shard_by=[], timeout=1500,
-                         nontrivial="par == 0"))
+                         nontrivial="par == 0", min_shard=4 if n in ("star5", "star6", "twocentre") else 48))
     return units
 
 
